@@ -5,6 +5,7 @@ import re
 import struct
 
 import vcheck
+import C05_leaf
 
 TWO53 = 2.0 ** 53
 TWO63 = 2.0 ** 63
@@ -381,15 +382,31 @@ CFG = {
         "stdlib SpecFloat (binary64 arithmetic SFadd/SFmul/SFdiv/SFsqrt, binary_normalize) as the meaning of IEEE-754 operations",
         "hand transcription of vm.go/value.go/runtime.go/builtin_math.go numeric paths (coq/C05/Model.v), Go int64(f) as on amd64",
         "spec layer S written from ECMA-262 (coq/C05/Model.v S_un/S_bin, coq/C05/Run.v StringToNumber)",
-        "correspondence harness harness/cmd/c05 + /repo/verif_hooks.go (VerifRepr, VerifRawInt, VerifRawFloat)",
+        "correspondence harness harness/cmd/c05 + /repo/verif_hooks.go (VerifRepr, VerifRawInt, VerifRawFloat, VerifIntToValue, VerifFloatToValue)",
+        ("LEAF LAYER (replaces the hand transcription for these functions): the Go->Gallina translator harness/cmd/go2v and its target "
+         "library coq/C05/GoSem.v. Translated on every run from the tree under test: vm.go intToValue, floatToInt, floatToValue; runtime.go "
+         "floatToInt64Mod32, toInt8, toUint8, toUint8Clamp, toInt16, toUint16, toInt32, toUint32, toInt64, toUint64, toLength, toIntStrict, "
+         "toIntClamp (64-bit branch); value.go floatToIntClip, valueInt.ToInteger, valueFloat.ToInteger (+ the Value.ToInteger dispatch over "
+         "the two Number types); builtin_array.go relToIdx; array.go toIdx; the package-level values _NaN, _positiveInf, _negativeInf, "
+         "_negativeZero, negativeZero, intCache (its init() loop) and the constants maxInt, math.MaxInt64/MinInt64/MaxUint32, bits.UintSize. "
+         "Trusted about it: the supported subset as printed in the header of coq/C05/LeafGen.v (if/return chains, switch{case}, := and = as "
+         "let, type tests v.(valueInt)/v.(valueFloat) as a match on NInt/NFlt, wrap-around integer arithmetic, integer/float conversions with "
+         "amd64 int64(f), float comparisons with NaN false, math.IsNaN/IsInf/Signbit/Trunc/Floor/Mod/NaN/Inf/Float64frombits, min/max, "
+         "dead-branch removal on constant conditions, recursion groups closed by bounded unrolling over arbitrary depth-0 functions); GoSem's "
+         "definitions of math.Trunc / math.Floor / math.Mod (exact) and of int64(f); GOARCH=amd64 (int = int64); a Value argument is a non-nil "
+         "Number taken after ToNumber (valueInt.ToNumber / valueFloat.ToNumber are checked to be the identity); uintN(f) is read as uintN(int64(f)). "
+         "A function that leaves the subset is listed as untranslated (LeafGen.untranslated, evidence coverage.leaf_translation) and the check "
+         "reports it; it is never guessed."),
     ],
     "assumptions": [
         "float payloads of the model are well-formed SpecFloat values (wf); validity of SFadd/SFmul/SFdiv/SFsqrt/binary_normalize results is the explicit premise prims_valid of wf_closed_given_prims, not proved here",
         "x**y is compared exactly where the integer power is representable, within 128 ulps otherwise (Number::exponentiate is implementation-approximated)",
-        "the implementation is tied to the model only on the generated cases (correspondence), not by proof",
+        "outside the leaf layer (operators, Math functions, string->number) the implementation is tied to the model only on the generated cases (correspondence), not by proof; the leaf layer is tied by the translation + coq/C05/LeafTie.v for all int64 arguments and all well-formed (valid_binary) float payloads",
         "decimal string->number is compared only where one correctly rounded division suffices (<= 2^53 mantissa, 10^k, k <= 22)",
     ],
     "predicates": PREDICATES,
+    # extra stage first (cheap when the regenerated translation equals the committed one), then the sampled correspondence
+    "stages": [C05_leaf.stage, vcheck.correspondence],
     "manifest": {
         "text": ("proof: over goja's two Number representations (valueInt/valueFloat) the canonical form is unique per mathematical "
                  "value (canon_unique); intToValue/floatToValue always canonicalise and equal the spec-level canonicaliser; EVERY "
@@ -397,15 +414,24 @@ CFG = {
                  "operands, hence every expression tree does (canon_closed, unguarded since the fixes of F7-F9); SameAs, ===, "
                  "SameValueZero agree with the specification in both argument orders and the hash respects SameValueZero "
                  "(hash_respects_svz_num, imported by C18); ToInt8..ToUint32 equal the specification for every input "
-                 "(toIntN_eq_spec, no 2^63 guard since the fix of F10); float64(i) is exact on the safe range (of_Z_exact). 24 "
-                 "theorems, no axioms. Open findings are exhibited by ..._refuted witnesses. The model is tied to /repo on every run "
+                 "(toIntN_eq_spec, no 2^63 guard since the fix of F10); float64(i) is exact on the safe range (of_Z_exact). "
+                 "LEAF LAYER REGENERATED FROM THE SOURCE: on every run harness/cmd/go2v translates intToValue, floatToInt, floatToValue, "
+                 "floatToInt64Mod32, toInt8..toUint64, toUint8Clamp, floatToIntClip, ToInteger, toLength, toIntStrict, toIntClamp, relToIdx, toIdx "
+                 "from the tree under test into Gallina (coq/C05/LeafGen.v) and coq/C05/LeafTie.v proves, for ALL int64 arguments and all "
+                 "well-formed float payloads, that each translated function equals the model function the theorems are about (leaf_* theorems; "
+                 "float64(i) is shown well-formed for every int64, math.Mod(f,2^32) exact), so canonicity and the ToIntN specification hold of "
+                 "that code as it is now; a change to one of these functions breaks a proof obligation and the driver then searches a failing "
+                 "input (Coq-side differential on ~3700 boundary inputs, confirmed on the real code through the harness). 47 "
+                 "theorems, no axioms. Open findings are exhibited by ..._refuted witnesses. The rest of the model is tied to /repo on every run "
                  "by 5000 (quick) / 300000 (thorough) generated operator/conversion/route/pair/string/pow/parseInt/parseFloat cases "
                  "whose result bit pattern AND representation tag are compared with the spec layer evaluated by vm_compute."),
         "note": ("trusted: Coq kernel + vm_compute; stdlib SpecFloat as IEEE semantics (validity of its rounded results is an explicit "
-                 "premise of the wf-closure theorem, not proved); the hand transcription coq/C05/Model.v (float comparisons against "
-                 "+-2^63 and math.Mod modelled by their exact mathematical meaning); the Go harness and verif_hooks.go; the "
-                 "implementation is covered by correspondence on generated cases, not by proof"),
-        "technique": "Rocq proofs over a two-layer executable model (goja transcription I, ECMAScript S) + differential correspondence against /repo via vm_compute",
+                 "premise of the wf-closure theorem, not proved); the hand transcription coq/C05/Model.v for everything except the leaf layer; "
+                 "for the leaf layer (listed in trusted_base) the translator harness/cmd/go2v (its subset is printed in the header of "
+                 "coq/C05/LeafGen.v) and coq/C05/GoSem.v (wrap-around integers, amd64 int64(f), exact math.Trunc/Floor/Mod) instead of the "
+                 "transcription; the Go harness and verif_hooks.go; outside the leaf layer the implementation is covered by correspondence "
+                 "on generated cases, not by proof"),
+        "technique": "Rocq proofs over a two-layer executable model (goja transcription I, ECMAScript S) + a narrow Go->Gallina translator for the leaf numeric functions with proved equality to the model + differential correspondence against /repo via vm_compute",
     },
 }
 
